@@ -32,8 +32,9 @@ std::string genGo(Rng& r, const pg::GenPos& gp, long long costNs, const GoOpts& 
     if (o.maxDepth > 0) maxDepth = std::min(maxDepth, o.maxDepth);
     int kind = (int)r.below(100);
     if (kind < 25) {
-        go += " depth " + std::to_string(r.range(1, maxDepth));
-        if (r.chance(0.3)) go += " nodes " + std::to_string(T);
+        long long d = r.range(1, maxDepth);
+        go += " depth " + std::to_string(d);
+        if (d > 6 || r.chance(0.3)) go += " nodes " + std::to_string(d > 6 ? std::max<long long>(T, 20000) : T); // deep searches always carry a node cap
     } else if (kind < 45) {
         go += " nodes " + std::to_string(T);
     } else if (kind < 60) {
